@@ -18,7 +18,7 @@ PID = 'C01'
 RULE = ('cases = (package, extinction law, A_V range, sources) drawn from the quantifier of C01; a case is '
         'non-trivial when at least one model is fitted with >=2 fitted bands of distinct extinction coefficient; '
         'distinct = distinct canonical hash of the generated inputs')
-REQUIRED_BRANCHES = ['law_route_attrs', 'law_route_file', 'law_route_file_swapped', 'law_route_file_03', 'law_route_file_21', 'law_route_copy', 'law_route_deepcopy', 'law_route_pickle', 'source_arrays_f8', 'source_arrays_list', 'source_arrays_int', 'source_arrays_be', 'source_arrays_readonly', 'tiny_model_flux', 'same_source_object_refitted', 'wav_filter_off_grid', 'rebuilt_in_place', 'wav_filter_other_unit', 'pkg_v1_mJy', 'pkg_v1_Jy', 'pkg_cube', 'pkg_cube_memmap', 'range_end_zero', 'law_other_unit', 'clamp_low', 'clamp_high', 'interior', 'lo_eq_hi', 'limit_violated', 'limit_ok', 'flag4', 'flag0or9']
+REQUIRED_BRANCHES = ['near_grey_law', 'signal_to_noise_below_0.05', 'law_route_attrs', 'law_route_file', 'law_route_file_swapped', 'law_route_file_03', 'law_route_file_21', 'law_route_copy', 'law_route_deepcopy', 'law_route_pickle', 'source_arrays_f8', 'source_arrays_list', 'source_arrays_int', 'source_arrays_be', 'source_arrays_readonly', 'tiny_model_flux', 'same_source_object_refitted', 'wav_filter_off_grid', 'rebuilt_in_place', 'wav_filter_other_unit', 'pkg_v1_mJy', 'pkg_v1_Jy', 'pkg_cube', 'pkg_cube_memmap', 'range_end_zero', 'law_other_unit', 'clamp_low', 'clamp_high', 'interior', 'lo_eq_hi', 'limit_violated', 'limit_ok', 'flag4', 'flag0or9']
 ASSUMPTIONS = ['IEEE rounding is not modelled: comparison tolerance 1e-9 x condition number',
                'decisions closer than 1e-7 to their threshold are compared in relaxed mode']
 N = {'quick': 160, 'thorough': 12000}
@@ -39,6 +39,13 @@ def gen_case(rng, directed=None):
     hi_w = nice(rng, 1.0, 300., 2) if rng.random() < 0.8 else nice(rng, 0.6, 3., 2)
     tw = sorted({lo_w, hi_w} | {nice(rng, lo_w, hi_w, 3) for _ in range(nt)})
     chi = [nice(rng, 1., 1e4, 3) for _ in tw]
+    # a nearly grey law: opacities that differ by a few parts in 1e5 from node to node - the regression is still
+    # well posed in double precision (the k of the fitted bands are distinct), only ill conditioned
+    near_grey = (directed == 'near_grey') or (directed is None and rng.random() < 0.06)
+    if near_grey:
+        c0 = nice(rng, 10., 1e3, 3)
+        dl = rng.choice([3e-5, 5e-5, 8e-5])
+        chi = [c0 * (1. + dl * (len(tw) - j)) for j in range(len(tw))]
     models = [[nice(rng, 1e-3, 1e3, 4) for _ in range(nb)] for _ in range(nm)]
     # strictly positive but very small model fluxes (1e-14 .. 1e-8 mJy) are fluxes like any other: a whole band, a whole
     # model, or single entries
@@ -55,6 +62,8 @@ def gen_case(rng, directed=None):
             for j in range(nb):
                 if rng.random() < 0.2:
                     mf[j] = float('%.4g' % (mf[j] * 10 ** -rng.randint(9, 15)))
+    if directed == 'near_grey':
+        directed = 'interior'
     kind = directed or rng.choice(['interior', 'clamp_low', 'clamp_high', 'lo_eq_hi', 'wide', 'wide', 'zero_end'])
     a0 = round(rng.uniform(0.5, 12.), 2)
     # the law may be tabulated in any length unit (the filters' wavelengths are converted to it by the code)
@@ -84,9 +93,16 @@ def gen_case(rng, directed=None):
         m = rng.randrange(nm)
         sc0 = rng.uniform(-1, 1)
         flux, err = [], []
+        # (near-grey law) the source is the model reddened by a large A_V with tiny errors, so that an A_V that is
+        # not the optimum costs a large chi^2 although the coefficients of the bands differ by parts in 1e5 only
+        a_pl = rng.uniform(10., 40.) if near_grey else 0.
+        if near_grey:
+            flags = [1 if f == 4 else f for f in flags]
+        kk = [-0.4 * float(np.interp(w, tw, chi, left=0., right=0.)) / float(np.interp(0.55, tw, chi)) for w in wavs]
+        lowsn = (not near_grey) and rng.random() < 0.15
         for j in range(nb):
-            base = models[m][j] * 10 ** (-2 * sc0) * 10 ** rng.uniform(-0.3, 0.3)
-            f = float('%.4g' % base)
+            base = models[m][j] * 10 ** (-2 * sc0) * (10 ** (a_pl * kk[j]) if near_grey else 10 ** rng.uniform(-0.3, 0.3))
+            f = float('%.4g' % base) if not near_grey else float(base)
             if flags[j] == 4:
                 flux.append(float('%.4f' % math.log10(f)))
                 err.append(nice(rng, 1e-3, 0.3, 2))
@@ -95,7 +111,14 @@ def gen_case(rng, directed=None):
                 err.append(rng.choice([0., 0.5, 0.9, 0.99, 1., round(rng.random(), 2)]))
             else:
                 flux.append(f)
-                err.append(float('%.3g' % (f * nice(rng, 1e-3, 0.5, 2))))
+                if near_grey:
+                    err.append(float('%.3g' % (f * 1e-3)))
+                elif lowsn and rng.random() < 0.5:
+                    # signal-to-noise far below 1 (sigma/F of 30 .. 300): a small but non-zero weight and a finite,
+                    # strongly bias-corrected log flux
+                    err.append(float('%.3g' % (f * nice(rng, 30., 300., 2))))
+                else:
+                    err.append(float('%.3g' % (f * nice(rng, 1e-3, 0.5, 2))))
         # how the caller holds the photometry: float64 arrays, plain Python lists, integer arrays (whole-number fluxes
         # with fractional errors), big-endian arrays as they come out of FITS tables, read-only arrays
         rep = rng.choice(['f8', 'f8', 'list', 'int', 'int', 'be', 'readonly'])
@@ -123,7 +146,9 @@ def gen_case(rng, directed=None):
         off = rng.choice([0., 0., 0.3, -0.3, 0.1, -0.45]) * gap
         req.append(float('%.6g' % (w + off)))
     law_route = rng.choice(['attrs', 'attrs', 'file', 'file_swapped', 'file_03', 'file_21', 'copy', 'deepcopy', 'pickle'])
-    return dict(law_route=law_route, req_wavs=req, kind=kind, wavs=wavs, tab_w=tw, tab_chi=chi, wav_unit=wav_unit, models=models, av=av, sources=sources,
+    if near_grey:
+        av = [0., 60.]
+    return dict(near_grey=bool(near_grey), law_route=law_route, req_wavs=req, kind=kind, wavs=wavs, tab_w=tw, tab_chi=chi, wav_unit=wav_unit, models=models, av=av, sources=sources,
                 pkg=pkg, filt_units=filt_units, rebuild=rebuild)
 
 
@@ -218,7 +243,8 @@ def table_in_unit(case):
 
 def gen_cases(seed, tier):
     n = N[tier]
-    directed = ['interior', 'clamp_low', 'clamp_high', 'lo_eq_hi', 'zero_end', 'zero_end', 'zero_end', 'zero_end']
+    directed = ['interior', 'clamp_low', 'clamp_high', 'lo_eq_hi', 'zero_end', 'zero_end', 'zero_end', 'zero_end',
+                'near_grey', 'near_grey', 'near_grey']
     for i in range(n):
         rng = case_rng(seed, PID, i)
         yield gen_case(rng, directed[i] if i < len(directed) else None)
@@ -286,6 +312,19 @@ def f32_budget(case, src, e):
     c = abs(float(e['chi2']))
     dchi = 2. * (2. * math.sqrt(c * sw) * dres + sw * dres ** 2)
     return dav, dsc, dchi, dres
+
+
+def weights_and_kmax(case, src):
+    """(sum of the fitting weights, largest |k| over the bands) of one source, for the chi^2 form of the rounding budget"""
+    _, tab, v, wq = table_in_unit(case)
+    k = -0.4 * np.interp(wq, tab, case['tab_chi'], left=0., right=0.) / np.interp(v, tab, case['tab_chi'])
+    fl = np.array(src['flags']); F = np.array(src['flux'], float); E = np.array(src['err'], float)
+    w = np.zeros(len(fl))
+    r1 = fl == 1
+    w[r1] = (np.log(10.) / np.abs(E[r1] / F[r1])) ** 2
+    r4 = fl == 4
+    w[r4] = 1. / E[r4] ** 2
+    return float(np.sum(w)), float(np.max(np.abs(k)))
 
 
 def model_side(case, src):
@@ -359,6 +398,10 @@ def run_case(case):
         if any(x < 1e-8 for mf in case['models'] for x in mf):
             branches.add('tiny_model_flux')
         branches.add('law_route_' + case.get('law_route', 'attrs'))
+        if case.get('near_grey'):
+            branches.add('near_grey_law')
+        if any(f == 1 and e > 20. * abs(x) for sr in case['sources'] for f, x, e in zip(sr['flags'], sr['flux'], sr['err'])):
+            branches.add('signal_to_noise_below_0.05')
         nontrivial = False
         for si, src in enumerate(case['sources']):
             if singular(case, src):
@@ -376,6 +419,7 @@ def run_case(case):
                     branches.add('same_source_object_refitted')
             got = pk.fit_arrays(info)
             exp = model_side(case, src)
+            wsum_kmax = weights_and_kmax(case, src)
             if sorted(got['name']) != sorted(names):
                 return CaseResult(False, detail='model names differ: %r' % (got['name'],), violates=True)
             if any(f in (0, 9) for f in src['flags']):
@@ -406,7 +450,13 @@ def run_case(case):
                         branches.add('interior')
                 okav = abs(got['av'][row] - float(e['av'])) <= tol * (1. + abs(float(e['av']))) + dav
                 oksc = abs(got['sc'][row] - float(e['sc'])) <= tol * (1. + abs(float(e['sc']))) + dsc
-                okc2 = abs(got['chi2'][row] - float(e['chi2'])) <= max(tol, 1e-9) * 10 * (1. + abs(float(e['chi2']))) + dchi
+                # a deviation of (av, sc) inside its budget moves every residual by at most kmax*tav + 2*tsc, hence
+                # chi^2 by at most sum(w) * (...)^2 beyond the optimum (the first-order term vanishes there) - the same
+                # budget expressed in chi^2 (theorem SF.C01_excess_bound, Properties/C01Budget.lean, with qmax = 2);
+                # negligible unless the regression is ill conditioned (near-grey laws)
+                tav, tsc = tol * (1. + abs(float(e['av']))), tol * (1. + abs(float(e['sc'])))
+                dchi_cond = wsum_kmax[0] * (wsum_kmax[1] * tav + 2. * tsc) ** 2
+                okc2 = abs(got['chi2'][row] - float(e['chi2'])) <= max(tol, 1e-9) * 10 * (1. + abs(float(e['chi2']))) + dchi + dchi_cond
                 if not (okav and oksc and okc2):
                     det = ('source %d model %s: impl (av, sc, chi2) = (%r, %r, %r); exact constrained optimum '
                            '(av, sc, chi2) = (%r, %r, %r); cond=%.3g margin=%.3g range=%r'
